@@ -920,20 +920,11 @@ func parseNumberLiteral(literal string) (value interface{}, err error) {
 
 	err = parseIntErr
 
-	if err.(*strconv.NumError).Err == strconv.ErrRange {
-		if len(literal) > 2 &&
-			literal[0] == '0' && (literal[1] == 'X' || literal[1] == 'x') &&
-			literal[len(literal)-1] != 'n' {
-			// Could just be a very large number (e.g. 0x8000000000000000)
-			var value float64
-			literal = literal[2:]
-			for _, chr := range literal {
-				digit := digitValue(chr)
-				if digit >= 16 {
-					goto error
-				}
-				value = value*16 + float64(digit)
-			}
+	if err.(*strconv.NumError).Err == strconv.ErrRange && literal[len(literal)-1] != 'n' {
+		// Could just be a very large number (e.g. 0x8000000000000000, 0b1<64 zeros>): the value is the
+		// float64 nearest to the exact integer
+		if bigInt, ok := new(big.Int).SetString(literal, 0); ok {
+			value, _ := new(big.Float).SetInt(bigInt).Float64()
 			return value, nil
 		}
 	}
